@@ -1,5 +1,5 @@
 (* PV.C04.Proofs — the lemmas behind Properties.v are developed in ProofsLcs.v (edit scripts),
    ProofsTheta.v (white space is invisible to reading and to update; update on a plain layout),
    ProofsTheta2.v (read-back of one theta and of a whole record; grammar of the result) and
-   ProofsDemo.v (the demo float instance obeys the float laws).  This file only gathers them. *)
-From PV Require Export C04.Cst C04.Lcs C04.Model C04.ModelOmega C04.ProofsLcs C04.ProofsTheta C04.ProofsTheta2 C04.ProofsOmega C04.ProofsDriver C04.Demo C04.ProofsDemo.
+   ProofsDemo.v (the demo float instance obeys the float laws); ProofsDriver.v / ProofsRealise.v: update_thetas.  This file only gathers them. *)
+From PV Require Export C04.Cst C04.Lcs C04.Model C04.ModelOmega C04.ModelRv C04.ProofsLcs C04.ProofsTheta C04.ProofsTheta2 C04.ProofsOmega C04.ProofsDriver C04.ProofsRealise C04.ProofsRv C04.Demo C04.ProofsDemo.
